@@ -104,8 +104,12 @@ def explore(run_one, *, limit: int, preemption_bound: int | None = None):
 
     run_one(prefix) executes the real code once: it follows the option *names* in ``prefix`` at the first
     len(prefix) decision points and the default option (index 0) afterwards, and returns
-    (result, decisions) with decisions = [(options, chosen_name, preempting: set of names)] for every decision
-    point it went through.  `preempting` are the options that would preempt a still-enabled running thread.
+    (result, decisions) with decisions = [(options, chosen_name, preempting: set of names, emitted: bool)] for
+    every decision point it went through.  `preempting` are the options that would preempt a still-enabled
+    running thread; `emitted` says whether the chosen step recorded an event.
+    Sleep-set style pruning for the environment action "Tick": a Tick commutes with every thread step that
+    records no event (the clock is only visible in recorded events), so "Tick right after a silent step" is not
+    explored when "Tick instead of that step" is.
     Yields every result; returns when the space (under the bound) is exhausted or `limit` executions ran.
     """
     stack: list[tuple[list[str], int]] = [([], 0)]
@@ -124,10 +128,14 @@ def explore(run_one, *, limit: int, preemption_bound: int | None = None):
         pre_used = used
         # preemptions spent inside the prefix are carried in `used`; count those after it while walking
         for k in range(len(prefix), len(decisions)):
-            opts, ch, preempting = decisions[k]
+            opts, ch, preempting = decisions[k][:3]
             for alt in opts:
                 if alt == ch:
                     continue
+                if alt == "Tick" and k > 0:
+                    po, pch, _, pem = decisions[k - 1]
+                    if pch != "Tick" and not pem and "Tick" in po:
+                        continue
                 cost = pre_used + (1 if alt in preempting else 0)
                 if preemption_bound is not None and cost > preemption_bound:
                     continue
